@@ -95,7 +95,8 @@ def constraint(draw, c, spec, T, design, kinds=None):
         basics = [f["name"] for f in spec["factors"] if f["name"] in design]
         n = draw(st.integers(1, min(3, len(basics))))
         return {"kind": "latin", "factors": list(draw(st.permutations(basics))[:n])}
-    f = draw(st.sampled_from(design))
+    dnames = [d["name"] for d in spec["derived"] if d["name"] in design]
+    f = draw(st.sampled_from(list(design) + dnames))       # derived factors twice as likely as targets
     if kind == "sequential":
         return {"kind": "sequential", "factor": f}
     levels = [l[0] for l in S.levels_of(spec, f)]
@@ -138,6 +139,9 @@ def leaf_block(draw, c, factors, derived, multi=False):
         lo = 0 if c["empty_crossing"] and draw(st.integers(0, 9)) == 0 else 1
         n = draw(st.integers(lo, min(c["max_crossing"], len(cand))))
         crossing = list(draw(st.permutations(cand))[:n])
+        dcand = [d["name"] for d in derived if d["name"] in cand]
+        if n >= 1 and dcand and not (set(crossing) & set(dcand)) and draw(st.integers(0, 2)) == 0:
+            crossing[-1] = draw(st.sampled_from(dcand))     # crossed derived factors are where the samplers differ most
         b = {"type": "cross", "design": design, "crossing": crossing, "constraints": [],
              "rcc": not (c["rcc_false"] and draw(st.booleans()))}
     return b
@@ -156,6 +160,8 @@ def design_spec(draw, c=None):
     nc = draw(st.integers(0, c["max_constraints"]))
     for _ in range(nc):
         b["constraints"].append(draw(constraint(c, spec, T, b["design"])))
+    if "min" in c["constraints"] and T and not any(x["kind"] == "min" for x in b["constraints"]) and draw(st.integers(0, 3)) == 0:
+        b["constraints"].append({"kind": "min", "k": draw(st.sampled_from([T + 1, T + 2, 2 * T - 1, 2 * T, 2 * T + 1]))})
     if c.get("aux"):
         spec["aux"] = draw(st.integers(0, 2 ** 30))
     return spec
